@@ -6,6 +6,9 @@ import shutil
 import vlib
 
 
+REPLAY = [None]
+
+
 def pre(rep):
     """(T) regenerate coq/gen/LockFacts.v from $VERIF_REPO/generator/graph/instance.go, then run the harness built
     with the race detector: a race report is a failure of the "no data race" clause."""
@@ -24,9 +27,25 @@ def pre(rep):
     shutil.rmtree(outdir, ignore_errors=True)
     os.makedirs(outdir, exist_ok=True)
     env = dict(vlib.GOENV, GORACE="halt_on_error=0 exitcode=66")
-    rc, out = vlib.sh([hbin, "-seed", str(rep.seed), "-n", str(n_race), "-out", outdir, "-tier", rep.tier,
-                       "-unlocked-reads=false"], cwd=vlib.VERIF, timeout=600, env=env)
+    cmd = [hbin, "-seed", str(rep.seed), "-n", str(n_race), "-out", outdir, "-tier", rep.tier, "-unlocked-reads=false",
+           "-cold", "40" if rep.tier == "thorough" else "5"]
+    if REPLAY[0]:
+        cmd += ["-replay", REPLAY[0], "-attempts", "40"]
+    rc, out = vlib.sh(cmd, cwd=vlib.VERIF, timeout=600, env=env)
     races = out.count("WARNING: DATA RACE")
+    # race reports of cold-start windows (child processes) belong to exactly one window: report it with that window
+    try:
+        meta = json.load(open(os.path.join(outdir, "meta.json")))
+        cases = vlib.load_cases(outdir)
+        for cid in meta.get("go_oracle_failures", [])[:1]:
+            c = cases.get(cid, {"id": cid})
+            rep.violation({"kind": "property-fails-on-implementation", "case": c,
+                           "oracle": "go race detector (report printed while this cold-start window ran in its own "
+                                     "process): " + c.get("go_oracle_fail", "")[:3000]})
+            races = max(races - 1, 0)
+            rc = 0 if rc == 66 and races == 0 else rc
+    except (OSError, ValueError):
+        pass
     rep.notes.append("race detector: %d windows with -race (UpdateParameter/ParameterData/Artifact only), %d report(s)"
                      % (n_race, races))
     if races or rc == 66:
@@ -73,8 +92,11 @@ CFG = {
                  "facts (T) + vm_compute judgement of recorded concurrent histories (H) + race detector sampling",
     "design_ref": "DESIGN.md §4 C13",
     "n_quick": 500, "n_thorough": 20000, "search_n": 2400,
-    "rule": "windows of one epoch = one Instance (5 fixed + random graph shapes: 4-6 parameters of types int/float64/"
-            "string/bool/File/Value[[]int] (slice payloads whose length depends on the value: equal and smaller "
+    "rule": "n/12 cold-start windows first (each in a child process on fresh instances, 12 attempts: all clients "
+            "released together on node ids never looked up before; a dying child = failed calls), then "
+            "windows of one epoch = one Instance (6 fixed + random graph shapes: 4-6 parameters of types int/float64/"
+            "string/bool/File/Value[[]int]/Image (uniform gray squares uploaded as PNG gray/RGBA/best-compression or "
+            "JPEG, ParameterData and image artifacts judged by decoded content) (slice payloads whose length depends on the value: equal and smaller "
             "re-uploads); 2-5 producers: text producers listing 2-5 parameters through shared and two-level join "
             "nodes, some parameters listed twice through different paths, loader-like nodes that FAIL (zero value + "
             "error) for int values divisible by 3 behind a fallback node, basics.Binary on File parameters, a "
@@ -107,4 +129,6 @@ CFG = {
 
 
 def main(argv):
+    if "--replay" in argv:
+        REPLAY[0] = os.path.abspath(argv[argv.index("--replay") + 1])
     return vlib.standard_check(CFG, argv)
